@@ -28,8 +28,8 @@ add("C09", ENGINE_W, "exploration", "refinement against an executable reference 
     "Operation-by-operation refinement of Witness.Update against the decision-table model; thorough enumerates the whole 0..17 cube x root x proof-kind space on fresh witnesses and then samples sizes to 2^63; schedule/fault dimensions are inert by design (weakest fit of the technique, said so in DESIGN.md).",
     BASE_NOTE, "DESIGN.md 5/C09")
 add("C20", ENGINE_W, "exploration", "deterministic simulation: conservation law over recorded histories (sequential, concurrent, faulty)",
-    "A recording metric factory observes seeded histories in sequential, concurrent (seeded scheduler) and fail-stop-fault batches; per run and log the four counters must equal the counts of actual outcomes, so a counter moved before the write or on a wrong path shows up when a Set fails or loses a race.",
-    BASE_NOTE, "DESIGN.md 5/C20")
+    "A recording metric factory observes seeded histories in sequential, concurrent (seeded scheduler) and fail-stop-fault batches; per run and log the four counters must equal the counts of actual outcomes, so a counter moved before the write or on a wrong path shows up when a Set fails or loses a race. Batches through the adapter (identical requests in flight, storage faults) and through the bastion endpoint. Thorough adds a free-running run under the race detector in which the production Prometheus backend must agree, per label, with the recording factory (not seed-replayable).",
+    BASE_NOTE, "DESIGN.md 5/C20, 12.5")
 
 add("C02", ENGINE_W, "exploration", "deterministic simulation: byzantine mutators over signed checkpoints, multi-log shared-key configurations, seeded races; authenticity invariant after every step",
     "Seeded byzantine submissions (bit flips, truncations, line and signature-block edits, origin rewrites, key-hash forgeries, cross-log replays under shared keys, unknown IDs), sequential and racing a valid submission under the seeded scheduler; one-sided invariant: whatever is stored or returned for an ID is a text the harness signed with that ID's key under that ID's origin, and unknown IDs never reach storage.",
@@ -49,7 +49,7 @@ add("C12", ENGINE_W, "exploration", "deterministic simulation: seeded interleavi
 
 add("C06", ENGINE_CRASH, "fault_enumeration", "deterministic fault enumeration: real SIGKILL of a child process at every database-driver boundary and every numbered SQLite VFS operation (clean and torn), reopen, recovery + behavioural oracle",
     "For each seeded history every kill point of the stated kinds is executed: the child process running the real witness on file-backed SQLite kills itself before/after each driver operation and at each VFS write/sync/truncate/delete (clean or torn); a fresh handle reopens the store and checks old-or-new, valid cosignatures, integrity, the log list and the acknowledgements; the history continues (sometimes into a second kill) and the restarted witness must refuse forks and accept the honest next step.",
-    "Process kill, not power loss (page cache survives; unsynced-write reordering not modelled). cmd/omniwitness/monolith.go's own sql.Open line is not executed; the harness opens SQLite the same way. " + BASE_NOTE, "DESIGN.md 3.7, 5/C06")
+    "Process kill, not power loss (page cache survives; unsynced-write reordering not modelled). The statements with which cmd/omniwitness/monolith.go opens --db_file are copied into the crash child at build time (static fallback: sql.Open + SetMaxOpenConns(1)); main() itself is run only for restarts (the real binary). " + BASE_NOTE, "DESIGN.md 3.7, 5/C06")
 add("C07", ENGINE_W, "fault_enumeration", "deterministic fault enumeration: every single storage-fault position at interface and SQL-driver level per seeded history, sampled multi-fault and SQLite VFS I/O-error windows, fault-free tail, wedge detection by the scheduler",
     "Per seeded history a dry run lists every storage call; every single fault position x error kind is then executed at the interface level (both stores) or the SQL-driver level (SQLite), plus sampled multi-fault patterns and VFS-level IOERR/FULL/short-write windows; each execution ends in a fault-free tail. Oracles: no false success, no change on failure, no TOFU on a failing read, tail builds on the last committed state, no wedge / leaked handle / connection in use.",
     "Injected faults are fail-stop and limited to what the real stores can do. " + BASE_NOTE, "DESIGN.md 3.6, 5/C07")
